@@ -8,14 +8,20 @@ which checks report a VIOLATION ("caught_by") and which stay silent ("missed_by"
 import json, os, re, subprocess, sys, tempfile, shutil, time
 
 here = os.path.dirname(os.path.dirname(os.path.abspath(__file__)))
+replay_check = False
 
 
 def main():
     args = sys.argv[1:]
     sid = args.pop(0)
     tier, props, units = "quick", None, []
+    global replay_check
+    replay_check = False
     while args:
         a = args.pop(0)
+        if a == "--replay-check":
+            replay_check = True
+            continue
         if a == "--tier":
             tier = args.pop(0)
         elif a == "--props":
@@ -46,6 +52,14 @@ def main():
                      "violation_classes": ["%s %s (%s)" % (u, k, n) for n, u, k in classes][:8]}
             if units:
                 entry["units"] = units
+            if r.returncode == 1 and replay_check:
+                # the first replay file must reproduce the violation on the changed tree (twice, identically)
+                m = re.search(r"^VIOLATION property=\S+ replay=(\S+)", r.stdout, re.M)
+                if m:
+                    rr = subprocess.run([os.path.join(here, "check"), p, "--replay", m.group(1)], env=env, capture_output=True, text=True)
+                    entry["replay_reproduces"] = rr.returncode == 1 and "REPLAY-VIOLATION" in rr.stdout
+                    if not entry["replay_reproduces"]:
+                        print("   REPLAY DID NOT REPRODUCE: rc=%d %s" % (rr.returncode, (rr.stdout + rr.stderr)[-400:]))
             key = "caught_by" if r.returncode == 1 else "missed_by"
             other = "missed_by" if key == "caught_by" else "caught_by"
             same = lambda e: e.get("check") == p and e.get("tier") == tier and e.get("units") == entry.get("units")
